@@ -723,18 +723,22 @@ func (e *Engine) readonlyWrite(op Op) error {
 	return e.tryReadonlyWrites(txn, op)
 }
 
-func mustPanicSettled(name string, fn func()) (err error) {
+// mustRefuse: a settled write transaction refuses further use. As built, every method panics with ErrSettledTxn; a
+// method that returns an error matching ErrSettledTxn instead would also be a refusal.
+func mustRefuse(name string, fn func() error) (err error) {
 	defer func() {
 		r := recover()
 		if r == nil {
-			err = fmt.Errorf("%s on a settled write transaction did not panic", name)
 			return
 		}
+		err = nil
 		if re, ok := r.(error); !ok || !errors.Is(re, fox.ErrSettledTxn) {
 			err = fmt.Errorf("%s on a settled write transaction panicked with %v, want ErrSettledTxn", name, r)
 		}
 	}()
-	fn()
+	if e := fn(); e == nil || !errors.Is(e, fox.ErrSettledTxn) {
+		return fmt.Errorf("%s on a settled write transaction neither panicked nor returned ErrSettledTxn (err=%v)", name, e)
+	}
 	return nil
 }
 
@@ -753,23 +757,26 @@ func (e *Engine) settledUse(op Op) error {
 	req := rt.NewRequest(rt.Req{Method: m, Path: "/settled"})
 	checks := []struct {
 		name string
-		fn   func()
+		fn   func() error
 	}{
-		{"Handle", func() { _, _ = txn.Handle(m, p, e.handler(0)) }},
-		{"Update", func() { _, _ = txn.Update(m, p, e.handler(0)) }},
-		{"Delete", func() { _, _ = txn.Delete(m, p) }},
-		{"Truncate", func() { _ = txn.Truncate() }},
-		{"HandleRoute", func() { _ = txn.HandleRoute(m, nil) }},
-		{"UpdateRoute", func() { _ = txn.UpdateRoute(m, nil) }},
-		{"Has", func() { _ = txn.Has(m, p) }},
-		{"Route", func() { _ = txn.Route(m, p) }},
-		{"Reverse", func() { _, _ = txn.Reverse(m, "", "/settled") }},
-		{"Lookup", func() { _, _, _ = txn.Lookup(rt.Writer(&rt.NopWriter{H: http.Header{}}, req), req) }},
-		{"Iter", func() { _ = txn.Iter() }},
-		{"Len", func() { _ = txn.Len() }},
+		{"Handle", func() error { _, err := txn.Handle(m, p, e.handler(0)); return err }},
+		{"Update", func() error { _, err := txn.Update(m, p, e.handler(0)); return err }},
+		{"Delete", func() error { _, err := txn.Delete(m, p); return err }},
+		{"Truncate", func() error { return txn.Truncate() }},
+		{"HandleRoute", func() error { return txn.HandleRoute(m, nil) }},
+		{"UpdateRoute", func() error { return txn.UpdateRoute(m, nil) }},
+		{"Has", func() error { _ = txn.Has(m, p); return nil }},
+		{"Route", func() error { _ = txn.Route(m, p); return nil }},
+		{"Reverse", func() error { _, _ = txn.Reverse(m, "", "/settled"); return nil }},
+		{"Lookup", func() error {
+			_, _, _ = txn.Lookup(rt.Writer(&rt.NopWriter{H: http.Header{}}, req), req)
+			return nil
+		}},
+		{"Iter", func() error { _ = txn.Iter(); return nil }},
+		{"Len", func() error { _ = txn.Len(); return nil }},
 	}
 	for _, c := range checks {
-		if err := mustPanicSettled(c.name, c.fn); err != nil {
+		if err := mustRefuse(c.name, c.fn); err != nil {
 			return err
 		}
 	}
